@@ -86,7 +86,8 @@ def gen_matrix(rng, n):
     kind = int(rng.integers(10))
     sym = bool(rng.integers(2))
     tag = "plain"
-    hi = int(rng.choice([1, 2, 9, 100, 30000, 10 ** 6, 10 ** 9, 10 ** 12]))
+    hi = int(rng.choice([1, 2, 9, 100, 30000, 10 ** 6, 10 ** 7, 10 ** 9,
+                         10 ** 12]))
     m = [[0] * n for _ in range(n)]
 
     def fill(f):
@@ -165,6 +166,12 @@ def gen_matrix(rng, n):
 
 
 def fits(m, dt):
+    if np.issubdtype(dt, np.floating):
+        # integer distances handed over in a float array (e.g. rounded
+        # coordinates): every entry must be exactly representable
+        lim = {np.float16: 2 ** 11, np.float32: 2 ** 24,
+               np.float64: 2 ** 53}[dt]
+        return max(max(r) for r in m) <= lim
     info = np.iinfo(dt)
     return info.min <= min(min(r) for r in m) and max(
         max(r) for r in m) <= info.max
@@ -348,7 +355,9 @@ def run_shard(ctx, args):
         m, tag = gen_matrix(rng, n)
         mult = 1 if rng.integers(4) else int(rng.choice([2, 3, n, 2 * n]))
         cands = [dt for dt in (np.int8, np.uint8, np.int16, np.uint16,
-                               np.int32, np.uint32, np.int64, np.uint64)
+                               np.int32, np.uint32, np.int64, np.uint64,
+                               np.float16, np.float32, np.float32,
+                               np.float64)
                  if fits(m, dt)]
         in_dtype = cands[int(rng.integers(len(cands)))] if rng.integers(3) \
             else np.int64
